@@ -8,8 +8,12 @@
      arg <PARAM-TY> <EX>          -> ref= const= refused=
      inst <0|1> <PARAM-TY> <EX>   -> refused=                  (first argument: isCompileTimeComputable(arg))
      binder <site> <TY>           -> mod= ty=<TY>
+     decl <DECL>                  -> const= free= ty=<TY>     (DECL = (base b prefix [label]) | (named prefix name DECL)
+                                                               | (struct prefix {name DECL}) | (array DECL) | (ref DECL))
+     declbinder <site> <DECL>     -> mod= ty=<TY>
 -/
 import UtapModel.Model.Const
+import UtapModel.Model.ConstDecl
 open UtapModel UtapModel.Const UtapModel.ConstGen
 
 inductive Tok where
@@ -126,6 +130,54 @@ def exInfo (e : Ex) : String :=
   s!"mod={b (isModLv e)} lv={b (isLv e)} uniq={b (isUniq e)} tmut={b t.isMutable} tconst={b t.isConstant} " ++
   s!"rooted={b (constRooted e)} mutt={b (mutTarget e)} pure={b (purePath e)} sites={b (sitesOk e)} ty={showTy t}"
 
+def prefixOf : String → Option Prefix
+  | "none" => some .none
+  | "const" => some .const
+  | "urgent" => some .urgent
+  | "broadcast" => some .broadcast
+  | "urgentBroadcast" => some .urgentBroadcast
+  | "systemMeta" => some .systemMeta
+  | "hybrid" => some .hybrid
+  | _ => none
+
+mutual
+  partial def parseDecl : List Tok → Option (Decl × List Tok)
+    | .lp :: .atom "base" :: .atom "scalar" :: .atom p :: .atom l :: .rp :: rest => do
+      pure (.base (.scalar l) (← prefixOf p), rest)
+    | .lp :: .atom "base" :: .atom b :: .atom p :: .rp :: rest => do
+      let bt ← match b with
+        | "bool" => some BaseType.bool
+        | "int" => some .int
+        | "double" => some .double
+        | "boundedInt" => some .boundedInt
+        | "clock" => some .clock
+        | _ => none
+      pure (.base bt (← prefixOf p), rest)
+    | .lp :: .atom "named" :: .atom p :: .atom n :: rest => do
+      let (d, r) ← parseDecl rest
+      let r ← expectRp r
+      pure (.named (← prefixOf p) n d, r)
+    | .lp :: .atom "struct" :: .atom p :: rest => do
+      let (fs, r) ← parseFields rest
+      pure (.struct (← prefixOf p) fs, r)
+    | .lp :: .atom "array" :: rest => do
+      let (d, r) ← parseDecl rest
+      let r ← expectRp r
+      pure (.array d, r)
+    | .lp :: .atom "ref" :: rest => do
+      let (d, r) ← parseDecl rest
+      let r ← expectRp r
+      pure (.ref d, r)
+    | _ => none
+  partial def parseFields : List Tok → Option (DeclFields × List Tok)
+    | .rp :: rest => some (.nil, rest)
+    | .atom n :: rest => do
+      let (d, r) ← parseDecl rest
+      let (fs, r) ← parseFields r
+      pure (.cons n d fs, r)
+    | _ => none
+end
+
 def stepLine (line : String) : String :=
   match tokenize line with
   | .atom "ex" :: rest =>
@@ -166,6 +218,16 @@ def stepLine (line : String) : String :=
       let bt := binderType site t
       s!"mod={b (isModLv (.ident "x" bt))} ty={showTy bt}"
     | _, _ => "bad-binder"
+  | .atom "decl" :: rest =>
+    match parseDecl rest with
+    | some (d, []) => s!"const={b d.isConst} free={b d.constFree} ty={showTy d.elab}"
+    | _ => "bad-decl"
+  | .atom "declbinder" :: .atom s :: rest =>
+    match siteOf s, parseDecl rest with
+    | some site, some (d, []) =>
+      let bt := binderType site d.elab
+      s!"mod={b (isModLv (.ident "x" bt))} ty={showTy bt}"
+    | _, _ => "bad-declbinder"
   | _ => "bad-op"
 
 partial def loop (h : IO.FS.Stream) (out : IO.FS.Stream) : IO Unit := do
